@@ -796,10 +796,10 @@ impl<'a> G<'a> {
                 match self.rng.below(12) {
                     0 => d.push_str(".*"),
                     1 => d.push('.'),
-                    2 if self.p.errors == 0 => d = "*".to_string(),
+                    2 if self.p.errors == 0 && self.p.readonly_writes == 0 => d = "*".to_string(),
                     3 => d = format!("r.{}", d),
                     4 => d = "done.state".to_string(),
-                    5 if self.p.errors == 0 => d = "error".to_string(),
+                    5 if self.p.errors == 0 && self.p.readonly_writes == 0 => d = "error".to_string(),
                     _ => {}
                 }
                 if !t.events.contains(&d) {
